@@ -219,7 +219,8 @@ class Spec:
         parts = [L("["), self._deref_part(body["main_reg"], "reg", C)]
         b, c, k = body.get("register_multiplier"), body.get("constant_multiplier"), body.get("constant_offset")
         if (b is None) != (c is None):
-            raise SpecError("index register and scale come together in AT&T syntax")
+            # objdump never prints an index without a scale (or vice versa): no operand has exactly these components
+            return rx.EMPTY
         if b is not None:
             parts += [L("+"), self._deref_part(b, "reg", C), L("*"), self._deref_part(c, "const", C)]
         if k is not None:
